@@ -541,6 +541,43 @@ def run(ctx):
                 shutil.rmtree(root, ignore_errors=True)
     computed_zoo()
 
+    def string_literal_zoo():
+        """computed fields that return string literals holding the characters a target language treats specially inside a literal: backslashes (alone, at the
+        end, before letters), both kinds of quotes, tabs and line breaks, braces and percent signs, non-ASCII text. The generated Python must import and every
+        computed field return exactly the string of the model; the generated C++ must compile"""
+        import json as _json
+        lits = [(r'"\\"', "\\"), (r'"a\\b"', "a\\b"), (r'"end\\"', "end\\"), (r'"C:\\new\\table"', "C:\\new\\table"), (r'"q\"q"', 'q"q'), ("'single'", "single"), ('"it\'s"', "it's"),
+                (r'"tab\tx"', "tab\tx"), (r'"nl\nx"', "nl\nx"), ('"\u00e9\u20ac"', "\u00e9\u20ac"), ('"{}%s%d{0}"', "{}%s%d{0}"), ('"$HOME `x`"', "$HOME `x`"), ('""', ""), ('"??/ trigraph"', "??/ trigraph"),
+                (r'"\\N{DASH}"', "\\N{DASH}"), (r'"\\x41\\u0041"', "\\x41\\u0041")]
+        model = "Sl: !record\n  fields:\n    n: int\n  computedFields:\n" + "".join("    s%d: %s\n" % (i, _json.dumps(src)) for i, (src, _) in enumerate(lits)) + "SlProto: !protocol\n  sequence:\n    c: Sl\n"
+        root = os.path.join(ctx.workdir, "cases", "string_literal_zoo")
+        shutil.rmtree(root, ignore_errors=True)
+        outs = ("cpp:\n  sourcesOutputDir: ../out/cpp\n  generateHDF5: false\n  generateCMakeLists: false\n  generateNDJson: false\n  overrideArrayHeader: %s\npython:\n  outputDir: ../out/python\n"
+                "matlab:\n  outputDir: ../out/matlab\n" % cxx.ARRAY_HEADER)
+        common.write_tree(root, {"pkg/_package.yml": "namespace: StrLit\n" + outs, "pkg/model.yml": model})
+        res = check_outputs(ctx, root, os.path.join(root, "pkg"), home, "computed fields that return string literals with backslashes, quotes, control characters, braces", "string-literal-zoo", full_cpp=True)
+        ctx.case(("string-literal-zoo",))
+        ctx.count("string-literal-zoo.%s" % res)
+        if res == "rejected":
+            ctx.violation("valid-model-rejected:string-literal-zoo", "the string-literal zoo is rejected", {"case_dir": root})
+        elif res == "ok":
+            pyd = os.path.join(root, "out/python")
+            code = ("import sys, json; sys.path.insert(0, %r); import str_lit as z\n"
+                    "c = z.Sl(n=1)\nwant = json.loads(%r)\nbad = []\n"
+                    "for i, w in enumerate(want):\n"
+                    "  try:\n    got = getattr(c, 's%%d' %% i)()\n"
+                    "  except Exception as e:\n    got = 'raised %%s' %% type(e).__name__\n"
+                    "  if got != w: bad.append('s%%d: %%r instead of %%r' %% (i, got, w))\n"
+                    "print(len(bad)); print('\\n'.join(bad[:5]))\n" % (pyd, _json.dumps([w for _, w in lits])))
+            pr = common.run([common.PY, "-c", code], cpu_s=120)
+            ctx.ev()
+            first = (pr.stdout.strip().split("\n") or ["?"])[0]
+            if pr.rc != 0 or first != "0":
+                ctx.violation("python-string-literal-differs:string-literal-zoo", "the generated Python computed fields do not return the model's string literals: %s %s" % (pr.stdout[-500:], pr.stderr[-300:]), {"case_dir": root})
+            else:
+                shutil.rmtree(root, ignore_errors=True)
+    string_literal_zoo()
+
     # (iii-j) unions that are the same target-language type through an alias used *inside* a case
     def alias_inside_union_case():
         model = ("Label: string\nCount: uint32\nPoint: !record\n  fields:\n    x: float\nPt: Point\n"
